@@ -51,12 +51,13 @@ for s in sorted(os.listdir(root)):
             break
     files = sorted(set(re.findall(r'^\+\+\+ b/(\S+)', open(os.path.join(d, 'patch.diff')).read(), re.M)))
     sweep = []
+    first_sweep = []
     sp = os.path.join(d, 'sweep.txt')
     if os.path.exists(sp):
         for l in open(sp):
-            m = re.match(r'check=(\S+) exit=(\S*) ?(.*)', l.strip())
+            m = re.match(r'(first-)?check=(\S+) exit=(\S*) ?(.*)', l.strip())
             if m:
-                sweep.append(dict(check=m.group(1), exit=m.group(2), first_line=m.group(3)))
+                (first_sweep if m.group(1) else sweep).append(dict(check=m.group(2), exit=m.group(3), first_line=m.group(4)))
     detected_by = [x['check'] for x in sweep if x['exit'] == '1']
     st = 'detected' if detected_by else ('not-detected' if sweep else 'not-swept')
     if s in status_override:
@@ -71,7 +72,7 @@ for s in sorted(os.listdir(root)):
         confirmed_by_me=verify.get(s, {}),
         confirmed_how='tools/verify_seed.sh <dir>: scratch worktree of /repo HEAD under /tmp; go test of the demo without the change, with the change, then the whole unedited suite with the change (the baseline-flaky TestRerankerWithFlatIndex tolerated); worktree removed',
         checked_how='tools/sweep_all.sh: git apply on a private clone of /repo, ./verif check <ID> --tier quick on a private copy of /verif, clone removed',
-        sweep=sweep, detected_by=detected_by, status=st,
+        sweep_before_strengthening=first_sweep, sweep=sweep, detected_by=detected_by, status=st,
     )
     json.dump(meta, open(os.path.join(d, 'meta.json'), 'w'), indent=1)
     print(s, st, detected_by)
